@@ -26,6 +26,7 @@ import (
 	"encoding/binary"
 	"errors"
 	"fmt"
+	"math/bits"
 	"sort"
 	"strconv"
 	"strings"
@@ -96,12 +97,16 @@ func verifC39KeyOf(id, life uint64) *verifC39KeySet {
 	return ks
 }
 
-var verifC39SigCache = map[[4]uint64]merklesignature.Signature{}
+var verifC39SigCache = map[string]merklesignature.Signature{}
 
 // verifC39Sign: the real Signer.SignBytes of key `id` for the key period containing `round`, on message `msg`.
 func verifC39Sign(id, life, round, msg uint64) merklesignature.Signature {
+	return verifC39SignData(id, life, round, verifC39Data(msg))
+}
+
+func verifC39SignData(id, life, round uint64, data MessageHash) merklesignature.Signature {
 	period := round / life
-	ck := [4]uint64{id, life, period, msg}
+	ck := fmt.Sprintf("%d/%d/%d/%x", id, life, period, data[:])
 	if s, ok := verifC39SigCache[ck]; ok {
 		return verifC39CopySig(s)
 	}
@@ -110,7 +115,6 @@ func verifC39Sign(id, life, round, msg uint64) merklesignature.Signature {
 		panic("round outside the key periods")
 	}
 	signer := merklesignature.Signer{SigningKey: &ks.keys[period-1], Round: round, SignerContext: ks.ctx}
-	data := verifC39Data(msg)
 	sig, err := signer.SignBytes(data[:])
 	if err != nil {
 		panic(err)
@@ -143,6 +147,14 @@ type verifC39Op struct {
 	coins, mcoins                string
 	mut                          []string
 	caseKey                      string
+	dataOverride                 *MessageHash // ledger ops: the signed message is stateproofmsg.Message.Hash()
+}
+
+func (o *verifC39Op) data() MessageHash {
+	if o.dataOverride != nil {
+		return *o.dataOverride
+	}
+	return verifC39Data(o.msg)
 }
 
 func verifC39List(s string) []uint64 {
@@ -170,7 +182,7 @@ func verifC39Join(xs []uint64) string {
 func verifC39Parse(line string) verifC39Op {
 	var o verifC39Op
 	f := strings.Fields(line)
-	if len(f) == 0 || f[0] != "sp" {
+	if len(f) == 0 || (f[0] != "sp" && f[0] != "vsp") {
 		panic("bad op")
 	}
 	var ck []string
@@ -205,7 +217,9 @@ func verifC39Parse(line string) verifC39Op {
 		case "mut":
 			o.mut = strings.Split(v, ":")
 		}
-		if k != "coins" && k != "mcoins" && k != "mut" {
+		switch k {
+		case "coins", "mcoins", "mut", "total", "thr", "ivl", "last", "at", "vmsg", "vlnpw": // not part of the case
+		default:
 			ck = append(ck, kv)
 		}
 	}
@@ -290,7 +304,7 @@ func verifC39Build(o *verifC39Op) *verifC39Case {
 		c.createErr = "err:partcom"
 		return c
 	}
-	data := verifC39Data(o.msg)
+	data := o.data()
 	c.prover, err = MakeProver(data, o.rnd, o.pw, c.parts, c.partcom, o.st)
 	if err != nil {
 		c.createErr = verifC39ErrClass(err)
@@ -298,7 +312,7 @@ func verifC39Build(o *verifC39Op) *verifC39Case {
 	}
 	c.lnOK = c.prover.LnProvenWeight == o.lnpw
 	for _, p := range o.signers {
-		sig := verifC39Sign(o.keys[p], o.life, o.rnd, o.msg)
+		sig := verifC39SignData(o.keys[p], o.life, o.rnd, data)
 		if err := c.prover.IsValid(p, &sig, true); err != nil {
 			c.createErr = "err:isvalid(" + err.Error() + ")"
 			return c
@@ -873,6 +887,61 @@ func verifC39Generate(emit func(op string)) {
 			emit(base + " coins=" + cs + " mut=" + strings.Join(m, ":") + " mcoins=" + mc)
 		}
 	}
+}
+
+// ------------------------------------------------------------------------------------ exported to package stateproof_test
+//
+// zz_verif_c39x_test.go (package stateproof_test) drives stateproof/verify.ValidateStateProof, which this package cannot
+// import (cycle); it reaches the unexported coin generator and the case builder through these wrappers.
+
+type VerifC39Built struct {
+	Err      string // "" or the class of the CreateProof / MakeProver error
+	Proof    *StateProof
+	Partcom  crypto.GenericDigest
+	LnPW, SW uint64
+}
+
+// VerifC39BuildLedger builds the case of an op line with the signed message hash given by the caller.
+func VerifC39BuildLedger(line string, data MessageHash) VerifC39Built {
+	o := verifC39Parse(line)
+	o.dataOverride = &data
+	o.caseKey += fmt.Sprintf(" data=%x", data[:])
+	c := verifC39Build(&o)
+	if c.createErr != "" {
+		return VerifC39Built{Err: c.createErr}
+	}
+	if !c.lnOK {
+		return VerifC39Built{Err: "err:lnmismatch"}
+	}
+	return VerifC39Built{Proof: verifC39CopyProof(c.proof), Partcom: append(crypto.GenericDigest{}, c.partcom.Root()...),
+		LnPW: c.prover.LnProvenWeight, SW: c.proof.SignedWeight}
+}
+
+func VerifC39CoinsFor(partcom crypto.GenericDigest, lnpw uint64, sigcom crypto.GenericDigest, sw uint64, data MessageHash, n int) []uint64 {
+	return verifC39Coins(partcom, lnpw, sigcom, sw, data, n)
+}
+
+func VerifC39Join(xs []uint64) string { return verifC39Join(xs) }
+
+// VerifC39GenLedgerCase: a case whose round is a multiple of the key lifetime and whose proven weight is the ledger's
+// total·threshold/2^32 for `total` = the weight of ALL participants (+ extra).
+func VerifC39GenLedgerCase(rng *vh.Rng, idx int, thr uint64) (string, uint64) {
+	o := verifC39GenCase(rng, idx)
+	o.rnd = o.life * uint64(1+rng.Intn(verifC39NumKeyRounds))
+	var total uint64
+	for _, w := range o.weights {
+		total += w
+	}
+	if rng.Chance(20) {
+		total += total / 4
+	}
+	hi, lo := bits.Mul64(total, thr)
+	o.pw = hi<<32 | lo>>32
+	o.lnpw = 0
+	if o.pw > 0 {
+		o.lnpw, _ = LnIntApproximation(o.pw)
+	}
+	return "v" + o.caseLine(), total
 }
 
 func TestVerifC39(t *testing.T) {
